@@ -390,4 +390,147 @@ theorem pull_eq_integral (c : Cfg) (s : IState) (hi : Inv s) (p t : Int)
         obtain ⟨v, hv, hv2⟩ := hsome perTime
         simp only [sumInterp, hnle, if_false, hv, hspec, hv2]
 
+/-! ### Bounds: an average lies within the range of the contributing values -/
+
+theorem nonneg_of_mul_nonneg (c x : Rat) (hc : 0 < c) (h : 0 ≤ c * x) : 0 ≤ x := by
+  have : c * 0 ≤ c * x := by simpa using h
+  exact Rat.le_of_mul_le_mul_left this hc
+
+theorem lin_pair_lower (A B va vb lo hi m : Rat) (hAB : A < B) (h1 : A ≤ lo) (h2 : lo ≤ hi) (h3 : hi ≤ B)
+    (ha : m ≤ va) (hb : m ≤ vb) :
+    m * (hi - lo) ≤ (va * (hi - A) + (vb - va) / (B - A) * ((hi - A) * (hi - A) / 2)) -
+                    (va * (lo - A) + (vb - va) / (B - A) * ((lo - A) * (lo - A) / 2)) := by
+  have hr : 0 < B - A := by grind
+  have hne : B - A ≠ 0 := by grind
+  have key : (2 * (B - A)) * (((va * (hi - A) + (vb - va) / (B - A) * ((hi - A) * (hi - A) / 2)) -
+                    (va * (lo - A) + (vb - va) / (B - A) * ((lo - A) * (lo - A) / 2))) - m * (hi - lo)) =
+      (hi - lo) * ((B - lo) * (va - m) + (lo - A) * (vb - m) + ((B - hi) * (va - m) + (hi - A) * (vb - m))) := by
+    grind
+  have hnn : 0 ≤ (hi - lo) * ((B - lo) * (va - m) + (lo - A) * (vb - m) + ((B - hi) * (va - m) + (hi - A) * (vb - m))) := by
+    apply Rat.mul_nonneg (by grind)
+    apply Rat.add_nonneg
+    · apply Rat.add_nonneg <;> apply Rat.mul_nonneg <;> grind
+    · apply Rat.add_nonneg <;> apply Rat.mul_nonneg <;> grind
+  have := nonneg_of_mul_nonneg (2 * (B - A)) _ (by grind) (key ▸ hnn)
+  grind
+
+theorem lin_pair_upper (A B va vb lo hi M : Rat) (hAB : A < B) (h1 : A ≤ lo) (h2 : lo ≤ hi) (h3 : hi ≤ B)
+    (ha : va ≤ M) (hb : vb ≤ M) :
+    (va * (hi - A) + (vb - va) / (B - A) * ((hi - A) * (hi - A) / 2)) -
+      (va * (lo - A) + (vb - va) / (B - A) * ((lo - A) * (lo - A) / 2)) ≤ M * (hi - lo) := by
+  have hne : B - A ≠ 0 := by grind
+  have := lin_pair_lower A B (-va) (-vb) lo hi (-M) hAB h1 h2 h3 (by grind) (by grind)
+  have e : (-vb - -va) / (B - A) = -((vb - va) / (B - A)) := by grind
+  rw [e] at this
+  grind
+
+theorem scale_le (m v l : Rat) (hl : 0 ≤ l) (h : 0 < l → m ≤ v) : m * l ≤ v * l := by
+  by_cases h0 : 0 < l
+  · exact Rat.mul_le_mul_of_nonneg_right (h h0) hl
+  · have : l = 0 := by grind
+    subst this; simp
+
+theorem step_pair_lower (va vb la lb m : Rat) (hla : 0 ≤ la) (hlb : 0 ≤ lb)
+    (ha : 0 < la → m ≤ va) (hb : 0 < lb → m ≤ vb) : m * (la + lb) ≤ va * la + vb * lb := by
+  have h1 := scale_le m va la hla ha
+  have h2 := scale_le m vb lb hlb hb
+  grind
+
+theorem step_pair_upper (va vb la lb M : Rat) (hla : 0 ≤ la) (hlb : 0 ≤ lb)
+    (ha : 0 < la → va ≤ M) (hb : 0 < lb → vb ≤ M) : va * la + vb * lb ≤ M * (la + lb) := by
+  have h1 := scale_le va M la hla ha
+  have h2 := scale_le vb M lb hlb hb
+  grind
+
+/-- one pair: the area (value·µs) over the overlap lies between `m · length` and `M · length` -/
+theorem pair_bounds (step : Option Rat) (a b : Entry Rat) (p0 p1 : Int) (m M : Rat)
+    (hab : a.t < b.t) (hp : p0 ≤ p1)
+    (hc : ∀ v ∈ pairContrib step a b p0 p1, m ≤ v ∧ v ≤ M) :
+    m * (clampR a.t b.t p1 - clampR a.t b.t p0) ≤
+      prim step a b (clampR a.t b.t p1) - prim step a b (clampR a.t b.t p0) ∧
+    prim step a b (clampR a.t b.t p1) - prim step a b (clampR a.t b.t p0) ≤
+      M * (clampR a.t b.t p1 - clampR a.t b.t p0) := by
+  have hAB : (a.t : Rat) < (b.t : Rat) := Rat.intCast_lt_intCast.2 hab
+  have hP : (p0 : Rat) ≤ (p1 : Rat) := Rat.intCast_le_intCast.2 hp
+  have h1 : (a.t : Rat) ≤ clampR a.t b.t p0 := by simp only [clampR]; grind
+  have h2 : clampR a.t b.t p0 ≤ clampR a.t b.t p1 := by simp only [clampR]; grind
+  have h3 : clampR a.t b.t p1 ≤ (b.t : Rat) := by simp only [clampR]; grind
+  cases step with
+  | none =>
+    simp only [prim, primLin]
+    simp only [pairContrib] at hc
+    revert hc
+    generalize clampR (a.t : Rat) (b.t : Rat) (p0 : Rat) = lo at *
+    generalize clampR (a.t : Rat) (b.t : Rat) (p1 : Rat) = hi at *
+    intro hc
+    by_cases hlt : lo < hi
+    · simp only [hlt, if_true] at hc
+      have ha := hc a.v (by simp)
+      have hb := hc b.v (by simp)
+      exact ⟨lin_pair_lower _ _ _ _ _ _ _ hAB h1 h2 h3 ha.1 hb.1,
+             lin_pair_upper _ _ _ _ _ _ _ hAB h1 h2 h3 ha.2 hb.2⟩
+    · have : hi = lo := by grind
+      subst this
+      constructor <;> grind
+  | some s =>
+    simp only [prim, primStep]
+    simp only [pairContrib] at hc
+    revert hc
+    generalize clampR (a.t : Rat) (b.t : Rat) (p0 : Rat) = lo at *
+    generalize clampR (a.t : Rat) (b.t : Rat) (p1 : Rat) = hi at *
+    generalize (a.t : Rat) + s * ((b.t : Rat) - a.t) = σ at *
+    intro hc
+    have hla : 0 ≤ min hi σ - min lo σ := by grind
+    have hlb : 0 ≤ max hi σ - max lo σ := by grind
+    have hsum : (min hi σ - min lo σ) + (max hi σ - max lo σ) = hi - lo := by grind
+    have ha : 0 < min hi σ - min lo σ → m ≤ a.v ∧ a.v ≤ M := by
+      intro h
+      have hlt : min lo σ < min hi σ := by grind
+      exact hc a.v (by simp [hlt])
+    have hb : 0 < max hi σ - max lo σ → m ≤ b.v ∧ b.v ≤ M := by
+      intro h
+      have hlt : max lo σ < max hi σ := by grind
+      exact hc b.v (by simp [hlt])
+    have l := step_pair_lower a.v b.v _ _ m hla hlb (fun h => (ha h).1) (fun h => (hb h).1)
+    have u := step_pair_upper a.v b.v _ _ M hla hlb (fun h => (ha h).2) (fun h => (hb h).2)
+    rw [hsum] at l u
+    constructor <;> grind
+
+/-- total length of the overlaps of `[p0, p1]` with the source intervals -/
+def lenSum : List (Entry Rat) → Int → Int → Rat
+  | a :: b :: rest, p0, p1 => (clampR a.t b.t p1 - clampR a.t b.t p0) + lenSum (b :: rest) p0 p1
+  | _, _, _ => 0
+
+/-- the overlaps tile `[p0, p1]` clamped to the published range -/
+theorem lenSum_eq : ∀ (es : List (Entry Rat)) (e0 : Entry Rat) (p0 p1 : Int), Sorted (e0 :: es) →
+    lenSum (e0 :: es) p0 p1 = clampR e0.t (lastE e0 es).t p1 - clampR e0.t (lastE e0 es).t p0 := by
+  intro es
+  induction es with
+  | nil => intro e0 p0 p1 _; simp only [lenSum, lastE, clampR]; grind
+  | cons e1 es ih =>
+    intro e0 p0 p1 hs
+    have h01 : (e0.t : Rat) < (e1.t : Rat) := Rat.intCast_lt_intCast.2 hs.1
+    have hl : (e1.t : Rat) ≤ ((lastE e1 es).t : Rat) := Rat.intCast_le_intCast.2 (lastE_ge e1 es hs.2)
+    simp only [lenSum, lastE]
+    rw [ih e1 p0 p1 hs.2]
+    simp only [clampR]
+    grind
+
+/-- the integral (value·seconds) lies between `m` and `M` times the covered length -/
+theorem spec_bounds (step : Option Rat) (m M : Rat) : ∀ (es : List (Entry Rat)) (e0 : Entry Rat) (p0 p1 : Int),
+    Sorted (e0 :: es) → p0 ≤ p1 → (∀ v ∈ contrib step (e0 :: es) p0 p1, m ≤ v ∧ v ≤ M) →
+    m * lenSum (e0 :: es) p0 p1 ≤ 1000000 * specIntegral step true (e0 :: es) p0 p1 ∧
+    1000000 * specIntegral step true (e0 :: es) p0 p1 ≤ M * lenSum (e0 :: es) p0 p1 := by
+  intro es
+  induction es with
+  | nil => intro e0 p0 p1 _ _ _; simp only [lenSum, specIntegral]; constructor <;> grind
+  | cons e1 es ih =>
+    intro e0 p0 p1 hs hp hc
+    have hpair := pair_bounds step e0 e1 p0 p1 m M hs.1 hp
+      (fun v hv => hc v (by simp only [contrib]; exact List.mem_append_left _ hv))
+    have hrest := ih e1 p0 p1 hs.2 hp
+      (fun v hv => hc v (by simp only [contrib]; exact List.mem_append_right _ hv))
+    simp only [lenSum, specIntegral, pairIntegral, weight, if_true]
+    constructor <;> grind
+
 end Finam.TI
